@@ -179,4 +179,6 @@ def replay(chk, path):
     subs = res.get("subs", [])
     same = bool(subs) and all(s == subs[0] for s in subs[1:])
     print("identical" if same else "DIFFERENT", res.get("construct_error", ""))
+    if not same:
+        print(f"VIOLATION property=C04 replay={path}")
     return 0 if same else 1
